@@ -356,6 +356,9 @@ func replayServe(c *ctx, ops []string) {
 				if f[0] == "svstart" {
 					return startOp(f)
 				}
+				if f[0] == "svl2" {
+					return l2Op(f)
+				}
 				return serveOp(f)
 			})
 		})
@@ -366,7 +369,7 @@ func replayServe(c *ctx, ops []string) {
 func genServe(c *ctx) {
 	// the whole server through server.Start first: both sections with an empty chain, a chain that is empty after the
 	// protocol filter, one pass-through plugin; then one section alone
-	for _, op := range []string{"svstart 46 empty", "svstart 46 other", "svstart 46 dns", "svstart 6 empty", "svstart 4 other"} {
+	for _, op := range []string{"svstart 46 empty", "svstart 46 other", "svstart 46 dns", "svstart 6 empty", "svstart 4 other", "svl2 16"} {
 		if c.count < c.n {
 			replayServe(c, []string{op})
 		}
